@@ -30,7 +30,8 @@ RESERVED = ["action_status", "timestamp", "task_uuid", "action_type", "task_leve
 # the pool the generator draws parameter names from (weights)
 POOL = (["logger", "action_type", "_serializers", "self", "fields", "task_id", "result", "exception", "reason", "x", "y"] * 4
         + ["task_uuid", "task_level", "timestamp", "action_status", "args", "kwargs", "message_type", "z",
-           "wrapped_function", "callargs", "ctx", "include_args"] * 2 + ["_call"])
+           "wrapped_function", "callargs", "ctx", "include_args"] * 2)
+CALL_RATE = 0.006      # how often one parameter is renamed `_call` (known finding F3e): a handful per run
 KINDS = {"posonly": "KPosOnly", "normal": "KNormal", "varargs": "KVarArgs", "kwonly": "KKwOnly", "varkw": "KVarKw"}
 KIND_REV = {v: k for k, v in KINDS.items()}
 EXC = [("builtins", "ValueError"), ("builtins", "KeyError"), ("builtins", "TypeError"), ("props.C18", "AppError"),
@@ -58,6 +59,8 @@ def gen_sig(rng, how):
         n = rng.choice(pool)
         if n not in names:
             names.append(n)
+    if names and rng.random() < CALL_RATE:
+        names[rng.randrange(len(names))] = "_call"
     it = iter(names)
     sig = []
     npos = n_po + n_nm
@@ -93,6 +96,9 @@ def gen_call(rng, sig, implicit_first):
         return nextv[0]
     k = rng.choice([len(posp), n_po, rng.randrange(0, len(posp) + 1)])
     k = max(k, min(n_po, len(posp))) if rng.random() < 0.8 else k
+    by_kw_posonly = n_po > 0 and rng.random() < 0.06
+    if by_kw_posonly:
+        k = rng.randrange(0, n_po)                          # a positional-only parameter left to a keyword
     pos = [v() for _ in range(k)]
     has_va = any(p[1] == "varargs" for p in params)
     has_vk = any(p[1] == "varkw" for p in params)
@@ -100,7 +106,7 @@ def gen_call(rng, sig, implicit_first):
         pos += [v() for _ in range(rng.choice([1, 2]))]
     kw = []
     for p in posp[k:]:
-        if p[1] == "normal" and (p[2] is None or rng.random() < 0.5):
+        if (p[1] == "normal" or by_kw_posonly) and (p[2] is None or rng.random() < 0.5):
             kw.append([p[0], v()])
     for p in params:
         if p[1] == "kwonly" and (p[2] is None or rng.random() < 0.5):
@@ -631,8 +637,27 @@ def nontrivial_calls(case, obs):
     return json.dumps([case["sig"], case["pos"], case["kw"], case["opts"], case["body"][0], case["how"]], sort_keys=True)
 
 
+def ref_valid(case):
+    """Python's binding rule, for the distribution report only"""
+    sig, pos, kw = case["sig"], model_pos(case), case["kw"]
+    slots = [p for p in sig if p[1] in ("posonly", "normal")]
+    has_va = any(p[1] == "varargs" for p in sig)
+    has_vk = any(p[1] == "varkw" for p in sig)
+    bound = {p[0] for p in slots[:len(pos)]}
+    if len(pos) > len(slots) and not has_va:
+        return False
+    for k, _ in kw:
+        if any(p[0] == k and p[1] in ("normal", "kwonly") for p in sig):
+            if k in bound:
+                return False
+            bound.add(k)
+        elif not has_vk:
+            return False
+    return all(p[0] in bound or p[2] is not None for p in sig if p[1] in ("posonly", "normal", "kwonly"))
+
+
 def describe_calls(case):
-    d = [case["how"], "nested" if case["nested"] is not None else "toplevel", "body:" + case["body"][0]]
+    d = [case["how"], "valid-call" if ref_valid(case) else "invalid-call", "nested" if case["nested"] is not None else "toplevel", "body:" + case["body"][0]]
     d += sorted({"kind:" + p[1] for p in case["sig"]})
     if any(p[2] is not None for p in case["sig"]):
         d.append("has-default")
@@ -692,5 +717,7 @@ LEVEL_TEXT = ("Coq theorems about the executable model of log_call (Python's bin
               "well-formed signature, call, option set and body under the stated guards; refutation witnesses for the guards. Tied to "
               "/repo by running generated functions decorated and undecorated and comparing outcomes, recorded bindings, messages and "
               "the outer signature with the model evaluated in Coq, plus the property's executable statement on the real output.")
-LEVEL_NOTE = ("Trusted: Coq kernel; hand-written model (Model/LogCall.v) tied by correspondence; CPython's binding as reference; "
-              "boltons' metadata preservation checked per case only.")
+LEVEL_NOTE = ("Trusted: Coq kernel; hand-written model (Model/LogCall.v) tied by correspondence; CPython's binding as reference. "
+              "The outer function generated by boltons.funcutils.wraps (signature without '/', forwarding of its locals through the "
+              "global _call) and inspect.getcallargs are MODELLED from their source and tied by the correspondence, not verified; "
+              "boltons' metadata preservation (__name__, __doc__, inspect.signature) is checked per case only.")
